@@ -208,7 +208,7 @@ pub fn run(ctx: Ctx) -> i32 {
     report.run_probes(&replay);
     let tier = ctx.tier;
     let n_entries = zoo.entries.len();
-    let per_entry = tier.pick(60u32, 1500u32);
+    let per_entry = tier.pick(200u32, 1500u32);
     let exclude_nested = report.known.is_open("C17", "protobuf-nested-lists");
     let exclude_list_in_choice = report.known.is_open("C17", "protobuf-list-in-choice");
     let bad = run_in_workers(&report, 16, std::time::Duration::from_secs(tier.pick(900, 10800)), &|report: &Report| {
